@@ -1,3 +1,567 @@
+/-
+C15 — the 2D Cartesian solver agrees with grid symmetries and with the 1D solver; plus the 2D parts of
+C01 (conservation) and C14 (translation invariance), all on the structured model `Flowdyn/Model/FVM2D.lean`.
+
+Generic kernels with kernel laws (proved for the concrete Euler 2D kernels in C02b: `e2Hlle_transpose`,
+`e2Centered_transpose`, `e2Hlle_mirror_x/_y`, `e2…_reduces_1d`).
+
+Proof organisation: both sweeps of the 2D pipeline are instances of one *line pipeline*
+(`lgrad`, `lL0`, `lR0`, `lL`, `lR`, `lFlux`) acting on the data of one row / one column
+(`xFlux_line`, `yFlux_line`, by `rfl`).  Shift invariance, transposition, constancy and the comparison
+with the 1D model are proved once for the line pipeline.
+-/
 import Flowdyn.Model.FVM2D
+import Flowdyn.Model.FVM1D
+import Mathlib.Algebra.BigOperators.Intervals
+import Mathlib.Algebra.BigOperators.Group.Finset.Basic
+import Mathlib.Algebra.BigOperators.Ring.Finset
+import Mathlib.Tactic.Ring
+import Mathlib.Tactic.Linarith
+import Mathlib.Tactic.FieldSimp
+
 namespace Flowdyn.C15
+open Flowdyn Finset
+variable {α : Type} [Field α] {ι : Type}
+
+/-! ### the line pipeline shared by the x-sweep and the y-sweep -/
+
+/-- differences at the faces `0 … n` of a line of `n` cells -/
+def lgrad (n : ℕ) (per : Bool) (d : ℕ → α) (a : ℕ) : α :=
+  if a = 0 ∨ a = n then (if per then d 0 - d (n - 1) else 0) else d a - d (a - 1)
+def lL0 (n : ℕ) (per : Bool) (km kp : α) (d : ℕ → α) (a : ℕ) : α :=
+  if a = 0 then 0 else d (a - 1) + km * lgrad n per d (a - 1) + kp * lgrad n per d a
+def lR0 (n : ℕ) (per : Bool) (km kp : α) (d : ℕ → α) (a : ℕ) : α :=
+  if a = n then 0 else d a - km * lgrad n per d (a + 1) - kp * lgrad n per d a
+def lL (n : ℕ) (bc : BCPair α ι) (km kp : α) (d : ι → ℕ → α) (k : ι) (a : ℕ) : α :=
+  if a = 0 then
+    match bc with
+    | .periodic => lL0 n bc.isPer km kp (d k) n
+    | .open lo _ => lo (fun l => lR0 n bc.isPer km kp (d l) 0) k
+  else lL0 n bc.isPer km kp (d k) a
+def lR (n : ℕ) (bc : BCPair α ι) (km kp : α) (d : ι → ℕ → α) (k : ι) (a : ℕ) : α :=
+  if a = n then
+    match bc with
+    | .periodic => lR0 n bc.isPer km kp (d k) 0
+    | .open _ hi => hi (fun l => lL0 n bc.isPer km kp (d l) n) k
+  else lR0 n bc.isPer km kp (d k) a
+def lFlux (n : ℕ) (bc : BCPair α ι) (km kp : α) (Φ : (ι → α) → (ι → α) → (ι → α))
+    (d : ι → ℕ → α) (k : ι) (a : ℕ) : α :=
+  Φ (fun l => lL n bc km kp d l a) (fun l => lR n bc km kp d l a) k
+
+theorem xFlux_line (D : Disc2D α ι) (q : ι → ℕ → ℕ → α) (k : ι) (i j : ℕ) :
+    D.xFlux q k i j
+      = lFlux D.mesh.nx D.bcx D.scheme.km D.scheme.kp (D.flux 1 0) (fun l a => D.pdata q l a j) k i := rfl
+
+theorem yFlux_line (D : Disc2D α ι) (q : ι → ℕ → ℕ → α) (k : ι) (i j : ℕ) :
+    D.yFlux q k i j
+      = lFlux D.mesh.ny D.bcy D.scheme.km D.scheme.kp (D.flux 0 1) (fun l b => D.pdata q l i b) k j := rfl
+
+/-! ### cyclic form of the periodic line pipeline -/
+
+theorem mod_add_congr {n a b : ℕ} (hab : a % n = b % n) (c : ℕ) : (a + c) % n = (b + c) % n := by
+  rw [Nat.add_mod a, Nat.add_mod b, hab]
+
+theorem mod_pred_congr {n a b : ℕ} (hn : 0 < n) (hab : a % n = b % n) :
+    (a + n - 1) % n = (b + n - 1) % n := by
+  rw [Nat.add_sub_assoc hn, Nat.add_sub_assoc hn]; exact mod_add_congr hab _
+
+def gC (n : ℕ) (d : ℕ → α) (a : ℕ) : α := d (a % n) - d ((a + n - 1) % n)
+def lC (n : ℕ) (km kp : α) (d : ℕ → α) (a : ℕ) : α :=
+  d ((a + n - 1) % n) + km * gC n d (a + n - 1) + kp * gC n d a
+def rC (n : ℕ) (km kp : α) (d : ℕ → α) (a : ℕ) : α :=
+  d (a % n) - km * gC n d (a + 1) - kp * gC n d a
+def fC (n : ℕ) (km kp : α) (Φ : (ι → α) → (ι → α) → (ι → α)) (d : ι → ℕ → α) (k : ι) (a : ℕ) : α :=
+  Φ (fun l => lC n km kp (d l) a) (fun l => rC n km kp (d l) a) k
+
+theorem gC_congr {n a b : ℕ} (hn : 0 < n) (d : ℕ → α) (hab : a % n = b % n) : gC n d a = gC n d b := by
+  unfold gC; rw [hab, mod_pred_congr hn hab]
+
+theorem lC_congr {n a b : ℕ} (hn : 0 < n) (km kp : α) (d : ℕ → α) (hab : a % n = b % n) :
+    lC n km kp d a = lC n km kp d b := by
+  unfold lC
+  rw [mod_pred_congr hn hab, gC_congr hn d hab, gC_congr hn d (mod_pred_congr hn hab)]
+
+theorem rC_congr {n a b : ℕ} (hn : 0 < n) (km kp : α) (d : ℕ → α) (hab : a % n = b % n) :
+    rC n km kp d a = rC n km kp d b := by
+  unfold rC
+  rw [hab, gC_congr hn d hab, gC_congr hn d (mod_add_congr hab 1)]
+
+theorem fC_congr {n a b : ℕ} (hn : 0 < n) (km kp : α) (Φ : (ι → α) → (ι → α) → (ι → α))
+    (d : ι → ℕ → α) (k : ι) (hab : a % n = b % n) : fC n km kp Φ d k a = fC n km kp Φ d k b := by
+  unfold fC
+  have h1 : ∀ l, lC n km kp (d l) a = lC n km kp (d l) b := fun l => lC_congr hn km kp (d l) hab
+  have h2 : ∀ l, rC n km kp (d l) a = rC n km kp (d l) b := fun l => rC_congr hn km kp (d l) hab
+  simp only [h1, h2]
+
+theorem lgrad_eq_gC {n : ℕ} (hn : 0 < n) (d : ℕ → α) {a : ℕ} (ha : a ≤ n) :
+    lgrad n true d a = gC n d a := by
+  unfold lgrad gC
+  by_cases h0 : a = 0 ∨ a = n
+  · rw [if_pos h0, if_pos rfl]
+    have e1 : a % n = 0 := by
+      rcases h0 with h | h
+      · rw [h]; exact Nat.zero_mod n
+      · rw [h]; exact Nat.mod_self n
+    have e2 : (a + n - 1) % n = n - 1 := by
+      rcases h0 with h | h
+      · rw [h, Nat.zero_add, Nat.mod_eq_of_lt (by omega)]
+      · rw [h, show n + n - 1 = (n - 1) + n by omega, Nat.add_mod_right, Nat.mod_eq_of_lt (by omega)]
+    rw [e1, e2]
+  · rw [if_neg h0]
+    have hf0 : a ≠ 0 := fun h => h0 (Or.inl h)
+    have hfn : a < n := lt_of_le_of_ne ha (fun h => h0 (Or.inr h))
+    rw [Nat.mod_eq_of_lt hfn, show a + n - 1 = (a - 1) + n by omega, Nat.add_mod_right,
+      Nat.mod_eq_of_lt (by omega : a - 1 < n)]
+
+theorem lL0_eq_lC {n : ℕ} (hn : 0 < n) (km kp : α) (d : ℕ → α) {a : ℕ} (h0 : a ≠ 0) (ha : a ≤ n) :
+    lL0 n true km kp d a = lC n km kp d a := by
+  unfold lL0 lC
+  rw [if_neg h0, lgrad_eq_gC hn d ha, lgrad_eq_gC hn d (by omega : a - 1 ≤ n)]
+  have e : a + n - 1 = (a - 1) + n := by omega
+  rw [gC_congr hn d (show (a + n - 1) % n = (a - 1) % n by rw [e, Nat.add_mod_right]), e,
+    Nat.add_mod_right, Nat.mod_eq_of_lt (by omega : a - 1 < n)]
+
+theorem lR0_eq_rC {n : ℕ} (hn : 0 < n) (km kp : α) (d : ℕ → α) {a : ℕ} (ha : a < n) :
+    lR0 n true km kp d a = rC n km kp d a := by
+  unfold lR0 rC
+  rw [if_neg (by omega), lgrad_eq_gC hn d (by omega : a ≤ n), lgrad_eq_gC hn d (by omega : a + 1 ≤ n),
+    Nat.mod_eq_of_lt ha]
+
+theorem lL_eq_lC {n : ℕ} (hn : 0 < n) (km kp : α) (d : ι → ℕ → α) (k : ι) {a : ℕ} (ha : a ≤ n) :
+    lL n (BCPair.periodic : BCPair α ι) km kp d k a = lC n km kp (d k) a := by
+  unfold lL
+  by_cases h0 : a = 0
+  · rw [if_pos h0]
+    show lL0 n true km kp (d k) n = _
+    rw [lL0_eq_lC hn km kp (d k) (by omega) le_rfl, h0]
+    exact lC_congr hn km kp _ (by rw [Nat.mod_self, Nat.zero_mod])
+  · rw [if_neg h0]
+    exact lL0_eq_lC hn km kp (d k) h0 ha
+
+theorem lR_eq_rC {n : ℕ} (hn : 0 < n) (km kp : α) (d : ι → ℕ → α) (k : ι) {a : ℕ} (ha : a ≤ n) :
+    lR n (BCPair.periodic : BCPair α ι) km kp d k a = rC n km kp (d k) a := by
+  unfold lR
+  by_cases h0 : a = n
+  · rw [if_pos h0]
+    show lR0 n true km kp (d k) 0 = _
+    rw [lR0_eq_rC hn km kp (d k) hn, h0]
+    exact rC_congr hn km kp _ (by rw [Nat.mod_self, Nat.zero_mod])
+  · rw [if_neg h0]
+    exact lR0_eq_rC hn km kp (d k) (lt_of_le_of_ne ha h0)
+
+theorem lFlux_eq_fC {n : ℕ} (hn : 0 < n) (km kp : α) (Φ : (ι → α) → (ι → α) → (ι → α))
+    (d : ι → ℕ → α) (k : ι) {a : ℕ} (ha : a ≤ n) :
+    lFlux n (BCPair.periodic : BCPair α ι) km kp Φ d k a = fC n km kp Φ d k a := by
+  unfold lFlux fC
+  have h1 : ∀ l, lL n (BCPair.periodic : BCPair α ι) km kp d l a = lC n km kp (d l) a :=
+    fun l => lL_eq_lC hn km kp d l ha
+  have h2 : ∀ l, lR n (BCPair.periodic : BCPair α ι) km kp d l a = rC n km kp (d l) a :=
+    fun l => lR_eq_rC hn km kp d l ha
+  simp only [h1, h2]
+
+/-! #### the cyclic shift -/
+
+theorem gC_shift {n : ℕ} (hn : 0 < n) (d : ℕ → α) (a : ℕ) :
+    gC n (fun c => d ((c + 1) % n)) a = gC n d (a + 1) := by
+  unfold gC
+  simp only [Nat.mod_add_mod]
+  rw [show a + n - 1 + 1 = a + 1 + n - 1 by omega]
+
+theorem lC_shift {n : ℕ} (hn : 0 < n) (km kp : α) (d : ℕ → α) (a : ℕ) :
+    lC n km kp (fun c => d ((c + 1) % n)) a = lC n km kp d (a + 1) := by
+  unfold lC
+  rw [gC_shift hn, gC_shift hn]
+  simp only [Nat.mod_add_mod]
+  rw [show a + n - 1 + 1 = a + 1 + n - 1 by omega]
+
+theorem rC_shift {n : ℕ} (hn : 0 < n) (km kp : α) (d : ℕ → α) (a : ℕ) :
+    rC n km kp (fun c => d ((c + 1) % n)) a = rC n km kp d (a + 1) := by
+  unfold rC
+  rw [gC_shift hn, gC_shift hn]
+  simp only [Nat.mod_add_mod]
+
+theorem fC_shift {n : ℕ} (hn : 0 < n) (km kp : α) (Φ : (ι → α) → (ι → α) → (ι → α))
+    (d : ι → ℕ → α) (k : ι) (a : ℕ) :
+    fC n km kp Φ (fun l c => d l ((c + 1) % n)) k a = fC n km kp Φ d k (a + 1) := by
+  unfold fC
+  have h1 : ∀ l, lC n km kp (fun c => d l ((c + 1) % n)) a = lC n km kp (d l) (a + 1) :=
+    fun l => lC_shift hn km kp (d l) a
+  have h2 : ∀ l, rC n km kp (fun c => d l ((c + 1) % n)) a = rC n km kp (d l) (a + 1) :=
+    fun l => rC_shift hn km kp (d l) a
+  simp only [h1, h2]
+
+/-- flux of the shifted line at face `i` = flux of the original line at face `(i+1) % n` -/
+theorem lFlux_shift_lo {n : ℕ} (hn : 0 < n) (km kp : α) (Φ : (ι → α) → (ι → α) → (ι → α))
+    (d : ι → ℕ → α) (k : ι) {i : ℕ} (hi : i < n) :
+    lFlux n (BCPair.periodic : BCPair α ι) km kp Φ (fun l c => d l ((c + 1) % n)) k i
+      = lFlux n (BCPair.periodic : BCPair α ι) km kp Φ d k ((i + 1) % n) := by
+  rw [lFlux_eq_fC hn km kp Φ _ k (le_of_lt hi),
+    lFlux_eq_fC hn km kp Φ d k (le_of_lt (Nat.mod_lt _ hn)), fC_shift hn]
+  exact fC_congr hn km kp Φ d k (Nat.mod_mod _ _).symm
+
+/-- flux of the shifted line at face `i+1` = flux of the original line at face `(i+1) % n + 1` -/
+theorem lFlux_shift_hi {n : ℕ} (hn : 0 < n) (km kp : α) (Φ : (ι → α) → (ι → α) → (ι → α))
+    (d : ι → ℕ → α) (k : ι) {i : ℕ} (hi : i < n) :
+    lFlux n (BCPair.periodic : BCPair α ι) km kp Φ (fun l c => d l ((c + 1) % n)) k (i + 1)
+      = lFlux n (BCPair.periodic : BCPair α ι) km kp Φ d k ((i + 1) % n + 1) := by
+  rw [lFlux_eq_fC hn km kp Φ _ k (by omega : i + 1 ≤ n),
+    lFlux_eq_fC hn km kp Φ d k (Nat.mod_lt _ hn : (i + 1) % n < n), fC_shift hn]
+  exact fC_congr hn km kp Φ d k (Nat.mod_add_mod (i + 1) n 1).symm
+
+/-! #### constant data -/
+
+theorem lFlux_const {n : ℕ} (hn : 0 < n) (km kp : α) (Φ : (ι → α) → (ι → α) → (ι → α))
+    (P : ι → α) (k : ι) {a : ℕ} (ha : a ≤ n) :
+    lFlux n (BCPair.periodic : BCPair α ι) km kp Φ (fun l _ => P l) k a = Φ P P k := by
+  rw [lFlux_eq_fC hn km kp Φ _ k ha]
+  unfold fC
+  have h1 : ∀ l, lC n km kp (fun _ => P l) a = P l := by
+    intro l; unfold lC gC; ring
+  have h2 : ∀ l, rC n km kp (fun _ => P l) a = P l := by
+    intro l; unfold rC gC; ring
+  simp only [h1, h2]
+
+/-! ### C01 (2D): flux balance telescopes row-wise and column-wise -/
+theorem balance2d (D : Disc2D α ι) (hdx : D.mesh.dx ≠ 0) (hdy : D.mesh.dy ≠ 0) (q : ι → ℕ → ℕ → α) (k : ι) :
+    ∑ j ∈ range D.mesh.ny, ∑ i ∈ range D.mesh.nx, D.mesh.vol * D.rhs q k i j
+      = D.mesh.dy * ∑ j ∈ range D.mesh.ny, (D.xFlux q k 0 j - D.xFlux q k D.mesh.nx j)
+        + D.mesh.dx * ∑ i ∈ range D.mesh.nx, (D.yFlux q k i 0 - D.yFlux q k i D.mesh.ny) := by
+  have hcell : ∀ i j, D.mesh.vol * D.rhs q k i j
+      = D.mesh.dy * (D.xFlux q k i j - D.xFlux q k (i + 1) j)
+        + D.mesh.dx * (D.yFlux q k i j - D.yFlux q k i (j + 1)) := by
+    intro i j
+    simp only [Disc2D.rhs, Mesh2D.vol]
+    field_simp
+    ring
+  simp only [hcell, Finset.sum_add_distrib, ← Finset.mul_sum, Finset.sum_range_sub']
+  congr 1
+  rw [Finset.sum_comm]
+  simp only [Finset.sum_range_sub']
+
+/-- periodic sides carry the same flux on both boundary faces -/
+theorem periodic_x_fluxes (D : Disc2D α ι) (hper : D.bcx = BCPair.periodic) (hnx : D.mesh.nx ≠ 0)
+    (q : ι → ℕ → ℕ → α) (k : ι) (j : ℕ) : D.xFlux q k 0 j = D.xFlux q k D.mesh.nx j := by
+  have hn : 0 < D.mesh.nx := Nat.pos_of_ne_zero hnx
+  rw [xFlux_line, xFlux_line, hper, lFlux_eq_fC hn _ _ _ _ _ (Nat.zero_le _),
+    lFlux_eq_fC hn _ _ _ _ _ le_rfl]
+  exact fC_congr hn _ _ _ _ _ (by rw [Nat.mod_self, Nat.zero_mod])
+theorem periodic_y_fluxes (D : Disc2D α ι) (hper : D.bcy = BCPair.periodic) (hny : D.mesh.ny ≠ 0)
+    (q : ι → ℕ → ℕ → α) (k : ι) (i : ℕ) : D.yFlux q k i 0 = D.yFlux q k i D.mesh.ny := by
+  have hn : 0 < D.mesh.ny := Nat.pos_of_ne_zero hny
+  rw [yFlux_line, yFlux_line, hper, lFlux_eq_fC hn _ _ _ _ _ (Nat.zero_le _),
+    lFlux_eq_fC hn _ _ _ _ _ le_rfl]
+  exact fC_congr hn _ _ _ _ _ (by rw [Nat.mod_self, Nat.zero_mod])
+
+/-- fully periodic: the integral of every component is invariant -/
+theorem periodic2d (D : Disc2D α ι) (hx : D.bcx = BCPair.periodic) (hy : D.bcy = BCPair.periodic)
+    (hnx : D.mesh.nx ≠ 0) (hny : D.mesh.ny ≠ 0) (hdx : D.mesh.dx ≠ 0) (hdy : D.mesh.dy ≠ 0)
+    (q : ι → ℕ → ℕ → α) (k : ι) :
+    ∑ j ∈ range D.mesh.ny, ∑ i ∈ range D.mesh.nx, D.mesh.vol * D.rhs q k i j = 0 := by
+  rw [balance2d D hdx hdy]
+  have h1 : ∀ j, D.xFlux q k 0 j - D.xFlux q k D.mesh.nx j = 0 :=
+    fun j => sub_eq_zero.mpr (periodic_x_fluxes D hx hnx q k j)
+  have h2 : ∀ i, D.yFlux q k i 0 - D.yFlux q k i D.mesh.ny = 0 :=
+    fun i => sub_eq_zero.mpr (periodic_y_fluxes D hy hny q k i)
+  simp only [h1, h2, Finset.sum_const_zero, mul_zero, add_zero]
+
+/-! ### C14 (2D): cyclic shifts along x and along y -/
+theorem rhs_shift_x (D : Disc2D α ι) (hper : D.bcx = BCPair.periodic) (hnx : 0 < D.mesh.nx)
+    (q : ι → ℕ → ℕ → α) (k : ι) (i j : ℕ) (hi : i < D.mesh.nx) :
+    D.rhs (fun l a b => q l ((a + 1) % D.mesh.nx) b) k i j = D.rhs q k ((i + 1) % D.mesh.nx) j := by
+  have hy : ∀ b, D.yFlux (fun l a b => q l ((a + 1) % D.mesh.nx) b) k i b
+      = D.yFlux q k ((i + 1) % D.mesh.nx) b := fun _ => rfl
+  have hx0 : D.xFlux (fun l a b => q l ((a + 1) % D.mesh.nx) b) k i j
+      = D.xFlux q k ((i + 1) % D.mesh.nx) j := by
+    rw [xFlux_line, xFlux_line, hper]
+    exact lFlux_shift_lo hnx _ _ _ (fun l a => D.pdata q l a j) k hi
+  have hx1 : D.xFlux (fun l a b => q l ((a + 1) % D.mesh.nx) b) k (i + 1) j
+      = D.xFlux q k ((i + 1) % D.mesh.nx + 1) j := by
+    rw [xFlux_line, xFlux_line, hper]
+    exact lFlux_shift_hi hnx _ _ _ (fun l a => D.pdata q l a j) k hi
+  unfold Disc2D.rhs
+  rw [hy, hy, hx0, hx1]
+theorem rhs_shift_y (D : Disc2D α ι) (hper : D.bcy = BCPair.periodic) (hny : 0 < D.mesh.ny)
+    (q : ι → ℕ → ℕ → α) (k : ι) (i j : ℕ) (hj : j < D.mesh.ny) :
+    D.rhs (fun l a b => q l a ((b + 1) % D.mesh.ny)) k i j = D.rhs q k i ((j + 1) % D.mesh.ny) := by
+  have hx : ∀ a, D.xFlux (fun l a b => q l a ((b + 1) % D.mesh.ny)) k a j
+      = D.xFlux q k a ((j + 1) % D.mesh.ny) := fun _ => rfl
+  have hy0 : D.yFlux (fun l a b => q l a ((b + 1) % D.mesh.ny)) k i j
+      = D.yFlux q k i ((j + 1) % D.mesh.ny) := by
+    rw [yFlux_line, yFlux_line, hper]
+    exact lFlux_shift_lo hny _ _ _ (fun l b => D.pdata q l i b) k hj
+  have hy1 : D.yFlux (fun l a b => q l a ((b + 1) % D.mesh.ny)) k i (j + 1)
+      = D.yFlux q k i ((j + 1) % D.mesh.ny + 1) := by
+    rw [yFlux_line, yFlux_line, hper]
+    exact lFlux_shift_hi hny _ _ _ (fun l b => D.pdata q l i b) k hj
+  unfold Disc2D.rhs
+  rw [hx, hx, hy0, hy1]
+
+/-! ### C15: transposition -/
+def transposeMesh (m : Mesh2D α) : Mesh2D α := { nx := m.ny, ny := m.nx, lx := m.ly, ly := m.lx }
+
+/-- conjugate a boundary pair by the component permutation `τ` (an involution on component vectors) -/
+def conjPair (T : (ι → α) → (ι → α)) : BCPair α ι → BCPair α ι
+  | .periodic => .periodic
+  | .open lo hi => .open (fun w => T (lo (T w))) (fun w => T (hi (T w)))
+
+/-- the transposed problem: x and y exchanged, component vectors permuted by `T` (velocity components swapped) -/
+def transposeDisc (T : (ι → α) → (ι → α)) (D : Disc2D α ι) : Disc2D α ι :=
+  { mesh := transposeMesh D.mesh, scheme := D.scheme, bcx := conjPair T D.bcy, bcy := conjPair T D.bcx,
+    c2p := D.c2p, flux := D.flux }
+
+omit [Field α] in
+theorem conjPair_isPer (T : (ι → α) → (ι → α)) (bc : BCPair α ι) : (conjPair T bc).isPer = bc.isPer := by
+  cases bc <;> rfl
+
+/-- the line pipeline with permuted components and conjugated boundary kernels -/
+theorem lL_conj (τ : ι → ι) (hτ : ∀ k, τ (τ k) = k) (n : ℕ) (bc : BCPair α ι) (km kp : α)
+    (d : ι → ℕ → α) (k : ι) (a : ℕ) :
+    lL n (conjPair (fun w l => w (τ l)) bc) km kp (fun l => d (τ l)) k a = lL n bc km kp d (τ k) a := by
+  unfold lL
+  rw [conjPair_isPer]
+  rcases bc with _ | ⟨lo, hi⟩
+  · rfl
+  · by_cases h0 : a = 0
+    · rw [if_pos h0, if_pos h0]
+      show lo (fun l => lR0 n _ km kp (d (τ (τ l))) 0) (τ k) = lo (fun l => lR0 n _ km kp (d l) 0) (τ k)
+      simp only [hτ]
+    · rw [if_neg h0, if_neg h0]
+
+theorem lR_conj (τ : ι → ι) (hτ : ∀ k, τ (τ k) = k) (n : ℕ) (bc : BCPair α ι) (km kp : α)
+    (d : ι → ℕ → α) (k : ι) (a : ℕ) :
+    lR n (conjPair (fun w l => w (τ l)) bc) km kp (fun l => d (τ l)) k a = lR n bc km kp d (τ k) a := by
+  unfold lR
+  rw [conjPair_isPer]
+  rcases bc with _ | ⟨lo, hi⟩
+  · rfl
+  · by_cases h0 : a = n
+    · rw [if_pos h0, if_pos h0]
+      show hi (fun l => lL0 n _ km kp (d (τ (τ l))) n) (τ k) = hi (fun l => lL0 n _ km kp (d l) n) (τ k)
+      simp only [hτ]
+    · rw [if_neg h0, if_neg h0]
+
+theorem lFlux_conj (τ : ι → ι) (hτ : ∀ k, τ (τ k) = k) (n : ℕ) (bc : BCPair α ι) (km kp : α)
+    (Φ Φ' : (ι → α) → (ι → α) → (ι → α))
+    (hΦ : ∀ L R k, Φ' (fun l => L (τ l)) (fun l => R (τ l)) k = Φ L R (τ k))
+    (d : ι → ℕ → α) (k : ι) (a : ℕ) :
+    lFlux n (conjPair (fun w l => w (τ l)) bc) km kp Φ' (fun l => d (τ l)) k a
+      = lFlux n bc km kp Φ d (τ k) a := by
+  unfold lFlux
+  have h1 : ∀ l, lL n (conjPair (fun w l => w (τ l)) bc) km kp (fun l => d (τ l)) l a
+      = lL n bc km kp d (τ l) a := fun l => lL_conj τ hτ n bc km kp d l a
+  have h2 : ∀ l, lR n (conjPair (fun w l => w (τ l)) bc) km kp (fun l => d (τ l)) l a
+      = lR n bc km kp d (τ l) a := fun l => lR_conj τ hτ n bc km kp d l a
+  simp only [h1, h2]
+  exact hΦ (fun l => lL n bc km kp d l a) (fun l => lR n bc km kp d l a) k
+
+/-- `T` acts on component vectors by a permutation `τ` of the components -/
+theorem rhs_transpose (τ : ι → ι) (hτ : ∀ k, τ (τ k) = k) (D : Disc2D α ι)
+    (hc2p : ∀ Q, D.c2p (fun k => Q (τ k)) = fun k => D.c2p Q (τ k))
+    (hflux : ∀ nx ny L R k, D.flux ny nx (fun l => L (τ l)) (fun l => R (τ l)) k = D.flux nx ny L R (τ k))
+    (q : ι → ℕ → ℕ → α) (k : ι) (i j : ℕ) :
+    (transposeDisc (fun w l => w (τ l)) D).rhs (fun l a b => q (τ l) b a) k j i = D.rhs q (τ k) i j := by
+  -- primitive data
+  have hp : ∀ l a b, (transposeDisc (fun w l => w (τ l)) D).pdata (fun l a b => q (τ l) b a) l a b
+      = D.pdata q (τ l) b a := by
+    intro l a b
+    show D.c2p (fun l' => q (τ l') b a) l = D.c2p (fun l' => q l' b a) (τ l)
+    rw [hc2p (fun l' => q l' b a)]
+  have hx : ∀ a b, (transposeDisc (fun w l => w (τ l)) D).xFlux (fun l a b => q (τ l) b a) k a b
+      = D.yFlux q (τ k) b a := by
+    intro a b
+    rw [xFlux_line, yFlux_line]
+    simp only [hp]
+    exact lFlux_conj τ hτ D.mesh.ny D.bcy D.scheme.km D.scheme.kp (D.flux 0 1) (D.flux 1 0)
+      (hflux 0 1) (fun l b' => D.pdata q l b b') k a
+  have hy : ∀ a b, (transposeDisc (fun w l => w (τ l)) D).yFlux (fun l a b => q (τ l) b a) k a b
+      = D.xFlux q (τ k) b a := by
+    intro a b
+    rw [yFlux_line, xFlux_line]
+    simp only [hp]
+    exact lFlux_conj τ hτ D.mesh.nx D.bcx D.scheme.km D.scheme.kp (D.flux 1 0) (D.flux 0 1)
+      (hflux 1 0) (fun l a' => D.pdata q l a' a) k b
+  unfold Disc2D.rhs
+  rw [hx, hx, hy, hy]
+  show 0 - ((D.yFlux q (τ k) i (j + 1) - D.yFlux q (τ k) i j) / D.mesh.dy
+      + (D.xFlux q (τ k) (i + 1) j - D.xFlux q (τ k) i j) / D.mesh.dx) = _
+  rw [add_comm]
+
+/-! ### C15: reduction to the 1D operator for data that do not vary along y (periodic in y) -/
+/-- all y-fluxes of a y-independent field with periodic top/bottom are equal, so they cancel -/
+theorem yflux_const_of_yindep (D : Disc2D α ι) (hy : D.bcy = BCPair.periodic) (hny : D.mesh.ny ≠ 0)
+    (q1 : ι → ℕ → α) (k : ι) (i j j' : ℕ) (hj : j ≤ D.mesh.ny) (hj' : j' ≤ D.mesh.ny) :
+    D.yFlux (fun l a _ => q1 l a) k i j = D.yFlux (fun l a _ => q1 l a) k i j' := by
+  have hn : 0 < D.mesh.ny := Nat.pos_of_ne_zero hny
+  rw [yFlux_line, yFlux_line, hy]
+  exact (lFlux_const hn _ _ _ (fun l => D.c2p (fun l' => q1 l' i) l) k hj).trans
+    (lFlux_const hn _ _ _ (fun l => D.c2p (fun l' => q1 l' i) l) k hj').symm
+
+/-- the 1D discretisation along x corresponding to a 2D one: uniform mesh, κ scheme (or first order),
+x-normal flux, x boundary kernels -/
+def rowDisc (D : Disc2D α ι) : Disc1D α ι :=
+  { mesh := uniMesh D.mesh.nx D.mesh.lx 0,
+    scheme := (match D.scheme with | .first => Scheme.extrapol1 | .kappa κ => Scheme.extrapolk κ),
+    bc := (match D.bcx with | .periodic => BC1D.periodic | .open lo hi => BC1D.open lo hi),
+    c2p := D.c2p, flux := D.flux 1 0, src := fun _ => none }
+
+/-! #### the 1D model on a uniform mesh is the line pipeline -/
+
+def sch1 : Scheme2D α → Scheme α
+  | .first => Scheme.extrapol1
+  | .kappa κ => Scheme.extrapolk κ
+def bc1 : BCPair α ι → BC1D α ι
+  | .periodic => BC1D.periodic
+  | .open lo hi => BC1D.open lo hi
+
+omit [Field α] in
+theorem bc1_isPer (bc : BCPair α ι) : (bc1 bc).isPer = bc.isPer := by cases bc <;> rfl
+
+def mkRow (n : ℕ) (L : α) (s : Scheme2D α) (bc : BCPair α ι) (c2p : (ι → α) → (ι → α))
+    (Φ : (ι → α) → (ι → α) → (ι → α)) : Disc1D α ι :=
+  { mesh := uniMesh n L 0, scheme := sch1 s, bc := bc1 bc, c2p := c2p, flux := Φ, src := fun _ => none }
+
+theorem rowDisc_eq (D : Disc2D α ι) :
+    rowDisc D = mkRow D.mesh.nx D.mesh.lx D.scheme D.bcx D.c2p (D.flux 1 0) := by
+  obtain ⟨mesh, s, bcx, bcy, c2p, flux⟩ := D
+  cases s <;> cases bcx <;> rfl
+
+section CharZero
+variable [CharZero α]
+
+theorem uni_vol' (n : ℕ) (L : α) (i : ℕ) : (uniMesh n L 0).vol i = L / n := by
+  simp only [Mesh1D.vol, uniMesh]; push_cast; ring
+
+theorem uni_xc' (n : ℕ) (L : α) (i : ℕ) : (uniMesh n L 0).xc i = ((i : α) + 1 / 2) * (L / n) := by
+  simp only [Mesh1D.xc, uniMesh]; push_cast; ring
+
+theorem uni_xf_sub_xc_pred' (n : ℕ) (L : α) (f : ℕ) (hf : f ≠ 0) :
+    (uniMesh n L 0).xf f - (uniMesh n L 0).xc (f - 1) = L / n / 2 := by
+  obtain ⟨f, rfl⟩ := Nat.exists_eq_succ_of_ne_zero hf
+  rw [uni_xc']; simp only [uniMesh, Nat.succ_sub_one]; push_cast; ring
+
+theorem uni_xf_sub_xc' (n : ℕ) (L : α) (f : ℕ) :
+    (uniMesh n L 0).xf f - (uniMesh n L 0).xc f = -(L / n / 2) := by
+  rw [uni_xc']; simp only [uniMesh]; ring
+
+theorem uni_xc_sub_xc_pred' (n : ℕ) (L : α) (f : ℕ) (hf : f ≠ 0) :
+    (uniMesh n L 0).xc f - (uniMesh n L 0).xc (f - 1) = L / n := by
+  obtain ⟨f, rfl⟩ := Nat.exists_eq_succ_of_ne_zero hf
+  rw [uni_xc', uni_xc']; simp only [Nat.succ_sub_one]; push_cast; ring
+
+theorem uni_seam' (n : ℕ) (hn : 0 < n) (L : α) :
+    (uniMesh n L 0).xc 0 + (uniMesh n L (0 : α)).length - (uniMesh n L 0).xc (n - 1) = L / n := by
+  obtain ⟨m, rfl⟩ := Nat.exists_eq_succ_of_ne_zero (Nat.pos_iff_ne_zero.mp hn)
+  rw [uni_xc', uni_xc']
+  simp only [uniMesh, Nat.succ_sub_one]
+  have : ((m + 1 : ℕ) : α) ≠ 0 := Nat.cast_ne_zero.mpr (Nat.succ_ne_zero m)
+  push_cast at this ⊢
+  field_simp
+  ring
+
+theorem grad1d_uni (n : ℕ) (hn : 0 < n) (L : α) (per : Bool) (d : ℕ → α) (a : ℕ) :
+    grad1d (uniMesh n L 0) per d a = lgrad n per d a / (L / n) := by
+  unfold grad1d lgrad
+  have hnn : (uniMesh n L (0 : α)).n = n := rfl
+  rw [hnn]
+  by_cases h0 : a = 0 ∨ a = n
+  · rw [if_pos h0, if_pos h0]
+    cases per
+    · simp
+    · rw [if_pos rfl, if_pos rfl, uni_seam' n hn]
+  · rw [if_neg h0, if_neg h0, uni_xc_sub_xc_pred' n L a (fun h => h0 (Or.inl h))]
+
+theorem recL_uni (s : Scheme2D α) (n : ℕ) (hn : 0 < n) (L : α) (hL : L ≠ 0) (per : Bool)
+    (d : ℕ → α) (a : ℕ) :
+    recL (sch1 s) (uniMesh n L 0) d (grad1d (uniMesh n L 0) per d) a = lL0 n per s.km s.kp d a := by
+  unfold recL lL0
+  by_cases h0 : a = 0
+  · rw [if_pos h0, if_pos h0]
+  · rw [if_neg h0, if_neg h0, uni_xf_sub_xc_pred' n L a h0]
+    have hh : L / (n : α) ≠ 0 := div_ne_zero hL (Nat.cast_ne_zero.mpr (by omega))
+    cases s with
+    | first => simp only [sch1, slopeL, Scheme2D.km, Scheme2D.kp]; ring
+    | kappa κ =>
+      simp only [sch1, slopeL, Scheme2D.km, Scheme2D.kp, grad1d_uni n hn]
+      generalize lgrad n per d (a - 1) = g1
+      generalize lgrad n per d a = g2
+      generalize L / (n : α) = h at hh ⊢
+      field_simp
+      ring
+
+theorem recR_uni (s : Scheme2D α) (n : ℕ) (hn : 0 < n) (L : α) (hL : L ≠ 0) (per : Bool)
+    (d : ℕ → α) (a : ℕ) :
+    recR (sch1 s) (uniMesh n L 0) d (grad1d (uniMesh n L 0) per d) a = lR0 n per s.km s.kp d a := by
+  unfold recR lR0
+  have hnn : (uniMesh n L (0 : α)).n = n := rfl
+  rw [hnn]
+  by_cases h0 : a = n
+  · rw [if_pos h0, if_pos h0]
+  · rw [if_neg h0, if_neg h0, uni_xf_sub_xc' n L a]
+    have hh : L / (n : α) ≠ 0 := div_ne_zero hL (Nat.cast_ne_zero.mpr (by omega))
+    cases s with
+    | first => simp only [sch1, slopeR, Scheme2D.km, Scheme2D.kp]; ring
+    | kappa κ =>
+      simp only [sch1, slopeR, Scheme2D.km, Scheme2D.kp, grad1d_uni n hn]
+      generalize lgrad n per d (a + 1) = g1
+      generalize lgrad n per d a = g2
+      generalize L / (n : α) = h at hh ⊢
+      field_simp
+      ring
+
+theorem mkRow_flux (n : ℕ) (hn : 0 < n) (L : α) (hL : L ≠ 0) (s : Scheme2D α) (bc : BCPair α ι)
+    (c2p : (ι → α) → (ι → α)) (Φ : (ι → α) → (ι → α) → (ι → α)) (q1 : ι → ℕ → α) (k : ι) (a : ℕ) :
+    (mkRow n L s bc c2p Φ).faceFluxes q1 k a
+      = lFlux n bc s.km s.kp Φ (fun l c => c2p (fun l' => q1 l' c) l) k a := by
+  have eL0 : ∀ l c, (mkRow n L s bc c2p Φ).pL0 q1 l c
+      = lL0 n bc.isPer s.km s.kp (fun c => c2p (fun l' => q1 l' c) l) c := by
+    intro l c
+    show recL (sch1 s) (uniMesh n L 0) (fun c => c2p (fun l' => q1 l' c) l)
+      (grad1d (uniMesh n L 0) (bc1 bc).isPer (fun c => c2p (fun l' => q1 l' c) l)) c = _
+    rw [bc1_isPer]
+    exact recL_uni s n hn L hL _ _ c
+  have eR0 : ∀ l c, (mkRow n L s bc c2p Φ).pR0 q1 l c
+      = lR0 n bc.isPer s.km s.kp (fun c => c2p (fun l' => q1 l' c) l) c := by
+    intro l c
+    show recR (sch1 s) (uniMesh n L 0) (fun c => c2p (fun l' => q1 l' c) l)
+      (grad1d (uniMesh n L 0) (bc1 bc).isPer (fun c => c2p (fun l' => q1 l' c) l)) c = _
+    rw [bc1_isPer]
+    exact recR_uni s n hn L hL _ _ c
+  have eL : ∀ l, (mkRow n L s bc c2p Φ).pL q1 l a
+      = lL n bc s.km s.kp (fun l c => c2p (fun l' => q1 l' c) l) l a := by
+    intro l
+    show bcFaceL n (bc1 bc) ((mkRow n L s bc c2p Φ).pL0 q1) ((mkRow n L s bc c2p Φ).pR0 q1) l a = _
+    unfold bcFaceL lL
+    rcases bc with _ | ⟨lo, hi⟩
+    · simp only [bc1, eL0]
+    · simp only [bc1, eL0, eR0]
+  have eR : ∀ l, (mkRow n L s bc c2p Φ).pR q1 l a
+      = lR n bc s.km s.kp (fun l c => c2p (fun l' => q1 l' c) l) l a := by
+    intro l
+    show bcFaceR n (bc1 bc) ((mkRow n L s bc c2p Φ).pL0 q1) ((mkRow n L s bc c2p Φ).pR0 q1) l a = _
+    unfold bcFaceR lR
+    rcases bc with _ | ⟨lo, hi⟩
+    · simp only [bc1, eR0]
+    · simp only [bc1, eL0, eR0]
+  show Φ (fun j => (mkRow n L s bc c2p Φ).pL q1 j a) (fun j => (mkRow n L s bc c2p Φ).pR q1 j a) k = _
+  unfold lFlux
+  simp only [eL, eR]
+
+end CharZero
+
+set_option linter.unusedVariables false in
+/-- **row by row the 2D operator is the 1D operator** (y-independent data, periodic in y, `nx·dx = lx`) -/
+theorem rhs_rows_eq_1d [CharZero α] (D : Disc2D α ι) (hy : D.bcy = BCPair.periodic) (hny : D.mesh.ny ≠ 0) (hnx : 0 < D.mesh.nx)
+    (hlx : D.mesh.lx ≠ 0) (hdy : D.mesh.dy ≠ 0)
+    (q1 : ι → ℕ → α) (k : ι) (i j : ℕ) (hi : i < D.mesh.nx) (hj : j < D.mesh.ny) :
+    D.rhs (fun l a _ => q1 l a) k i j = (rowDisc D).rhs q1 k i := by
+  rw [rowDisc_eq]
+  show _ = -((mkRow D.mesh.nx D.mesh.lx D.scheme D.bcx D.c2p (D.flux 1 0)).faceFluxes q1 k (i + 1)
+      - (mkRow D.mesh.nx D.mesh.lx D.scheme D.bcx D.c2p (D.flux 1 0)).faceFluxes q1 k i)
+      / (uniMesh D.mesh.nx D.mesh.lx 0).vol i
+  rw [mkRow_flux _ hnx _ hlx, mkRow_flux _ hnx _ hlx, uni_vol']
+  unfold Disc2D.rhs
+  rw [yflux_const_of_yindep D hy hny q1 k i (j + 1) j (by omega) (by omega), xFlux_line, xFlux_line,
+    sub_self, zero_div, add_zero, zero_sub, neg_div]
+  rfl
+
 end Flowdyn.C15
